@@ -456,7 +456,8 @@ def pair2_group_result(P, R, L, rule="PAIR-2"):
                        "set=%d notify=%d pop=%d" % (len(setres), len(notif), len(pops)))
     for s in setres:
         os_ = origins(b, s.args[1])
-        ok = any(o.kind == "call" and o.name in RESULT_SRC for o in os_)
+        # both outcomes feed it: the make-room result (when no write was attempted) and the WAL+memtable section's result
+        ok = RESULT_SRC <= {o.name for o in os_ if o.kind == "call"}
         R.check(rule, APPLY + "|follower-gets-group-result", ok, s.where(),
                 "the value handed to set_operation_result derives from the group's write result (make_room_for_write / WAL+memtable section)",
                 "origins %s" % sorted({repr(o) for o in os_})[:6])
@@ -477,7 +478,7 @@ def pair2_group_result(P, R, L, rule="PAIR-2"):
                 n_ret += 1
                 rv = st["rv"]
                 os_ = origins(b, {"l": 0, "p": []}) if False else (origins(b, rv["ops"][0]) if rv["k"] == "use" else [])
-                if not any(o.kind == "call" and o.name in RESULT_SRC for o in os_):
+                if not RESULT_SRC <= {o.name for o in os_ if o.kind == "call"}:
                     bad.append("%s:%s assigns %s" % (b.file, st["line"], (rv.get("adt") or "") + "::" + (rv.get("variant") or rv["k"])))
     # also a call writing _0 directly
     for c in b.calls():
@@ -485,7 +486,7 @@ def pair2_group_result(P, R, L, rule="PAIR-2"):
             n_ret += 1
             if c.name not in TRANSPARENT_RESULT:
                 bad.append("%s returns the result of %s" % (c.where(), c.name))
-            elif not any(o.kind == "call" and o.name in RESULT_SRC for o in origins(b, c.args[0])):
+            elif not RESULT_SRC <= {o.name for o in origins(b, c.args[0]) if o.kind == "call"}:
                 bad.append("%s returns a value not derived from the group result" % c.where())
     R.check(rule, APPLY + "|leader-returns-group-result", not bad and n_ret > 0, where(b),
             "the value the leader returns after the pop loop derives from the group's write result",
@@ -4135,11 +4136,12 @@ def bundle_retention(P, R, L):
 
 def bundle_liveness(P, R, L):
     """files a reader may still open are not deleted"""
-    R.clause("LIVE", "liveness bundle: GRD-5 (deletion guards incl. files of every linked version), PAIR-1 (version pins), cache eviction before delete")
+    R.clause("LIVE", "liveness bundle: GRD-5 (deletion guards incl. files of every linked version), PAIR-1 (version pins), OWN-12 (release unlinks that version), cache eviction before delete")
     from . import c11
     R.once(c11.grd5, P, R, L)
     R.once(c11.pair1, P, R, L)
     R.once(cache_eviction, P, R, L)
+    R.once(own12_release_unlinks_that_version, P, R, L)
 
 
 def bundle_readpath(P, R, L):
@@ -4637,3 +4639,168 @@ def grd23_read_sample_threshold(P, R, L, rule="GRD-23"):
     ok = bool(us) and bool(edges) and all(b.must_pass(c.bb, through_edges=edges) for c in us)
     R.check(rule, fn + "|charge-only-with-two-or-more-files", ok, where(b),
             "update_stats is reached only over the edge `files holding the key >= 2`", "update_stats sites %d, threshold edges %d" % (len(us), len(edges)))
+
+
+# ------------------------------------------------------------------------------------------- ITR-1 backward collapse of the client iterator
+def itr1_backward_collapse(P, R, L, rule="ITR-1"):
+    """DatabaseIterator::find_prev_client_entry walks the versions of a user key oldest-first. Per record: nothing about
+    a record that is newer than the snapshot may change the iterator's state (cached key / value, the last-operation
+    state); and every VISIBLE Put overwrites the cached key and value (the last one seen is the newest visible one),
+    every visible Delete clears them."""
+    fn = "iterator::DatabaseIterator::find_prev_client_entry"
+    b = P.body(fn)
+    if b is None:
+        return R.missing_anchor(rule, fn)
+    R.analysed(b)
+    seqk = lambda os_: any(o.kind == "call" and o.name == SEQ_OF_KEY for o in os_)
+    snap = lambda os_: any("sequence_snapshot" in o.path for o in os_)
+    visible = []
+    for c in comparisons(b):
+        visible += c.edges_where("le", seqk, snap)
+    prevs = [c for c in b.calls() if not b.is_cleanup(c.bb) and (c.declared_name or "") == ITER_TRAIT + "::prev" and in_cycle(b, c.bb)]
+    if not visible or not prevs:
+        return R.check(rule, fn + "|anchors", False, where(b), "the loop filters by sequence and steps the inner iterator backwards", "visible edges %d, prev sites %d" % (len(visible), len(prevs)))
+    cyc = {x for x in b.reachable(prevs[0].bb) if prevs[0].bb in b.reachable(x)}
+    head = _loop_head(b, prevs[0].bb)
+    # state written inside the loop: the cached key / value and the last-operation local(s)
+    state_stores = []
+    for fld in ("cached_user_key", "cached_value"):
+        state_stores += [(s_[0], fld) for s_ in field_stores(b, fld) if s_[0] in cyc]
+    op_locals = [l for l in range(len(b.locals)) if b.local_ty(l).endswith("key::Operation") and b.local_name(l) is not None]
+    for l in op_locals:
+        defs_in = [d for d in b.defs().get(l, []) if d[1] in cyc and d[0] == "stmt"]
+        defs_out = [d for d in b.defs().get(l, []) if d[1] not in cyc]
+        if defs_in and defs_out:            # initialised before the loop and updated inside it: loop state
+            state_stores += [(d[1], b.local_name(l)) for d in defs_in]
+    bad = [(bb, what) for (bb, what) in state_stores if not b.must_pass(bb, through_edges=visible, start=head)]
+    R.check(rule, fn + "|invisible-records-change-nothing", bool(state_stores) and not bad, where(b),
+            "every update of the cached key / value and of the last-operation state inside the loop lies behind the `sequence <= snapshot` edge",
+            "; ".join("%s updated in bb%d without the visibility test" % (w, bb) for bb, w in bad) or "%d state updates" % len(state_stores))
+    # visible Put => both cache fields are rewritten before the iterator steps; visible Delete => both cleared
+    put_e = variant_edges(P, b, "key::Operation", "Put", origin_pred_call(GET_OP))
+    del_e = variant_edges(P, b, "key::Operation", "Delete", origin_pred_call(GET_OP))
+    put_e = [e for e in put_e if e[0] in cyc]
+    del_e = [e for e in del_e if e[0] in cyc]
+    ok = bool(put_e) and bool(del_e)
+    det = []
+    for edges, lab in ((put_e, "Put"), (del_e, "Delete")):
+        for (sb, tg) in edges:
+            for fld in ("cached_user_key", "cached_value"):
+                st = [s_[0] for s_ in field_stores(b, fld) if s_[0] in cyc]
+                for p_ in prevs:
+                    if not b.must_pass(p_.bb, through_nodes=st, start=tg):
+                        ok = False
+                        det.append("after a visible %s the iterator can step without rewriting %s" % (lab, fld))
+    # leaving the loop because "the records of the previous user key begin" needs a strictly smaller user key: the newer
+    # versions of the cached key (equal user key) must still be processed
+    uk = lambda os_: any(o.kind == "call" and o.name == GET_USER_KEY for o in os_)
+    ck = lambda os_: any("cached_user_key" in o.path for o in os_)
+    early = []
+    n_cmp = 0
+    for c in comparisons(b):
+        if c.bb in cyc and (c.edges_where("le", uk, ck) or c.edges_where("ge", uk, ck)):
+            n_cmp += 1
+            strictly_less = set(c.edges_where("lt", uk, ck, exact=True))
+            for t in list(c.true_t) + list(c.false_t):
+                if (c.bb, t) in strictly_less:
+                    continue
+                r = b.reachable(t, stop_nodes=[p_.bb for p_ in prevs])
+                rets = set(b.return_blocks())
+                if any(x not in cyc and not b.is_cleanup(x) and (x in rets or rets & set(b.reachable(x))) for x in r):
+                    early.append("bb%d->bb%d" % (c.bb, t))
+    R.check(rule, fn + "|leaves-the-key-only-on-a-strictly-smaller-key", n_cmp >= 1 and not early, where(b),
+            "the loop is left at a user-key boundary only over the exact edge `user key < cached key`", "; ".join(early) or "boundary comparisons %d" % n_cmp)
+    R.check(rule, fn + "|every-visible-record-rewrites-the-cache", ok, where(b),
+            "on the Put edge key and value are overwritten, on the Delete edge both are cleared, on every path to the next prev()",
+            "; ".join(sorted(set(det))) or "put edges %d, delete edges %d" % (len(put_e), len(del_e)))
+
+
+# ------------------------------------------------------------------------------------------- ITR-2 forward collapse of the client iterator
+def itr2_forward_collapse(P, R, L, rule="ITR-2"):
+    """DatabaseIterator::find_next_client_entry: records newer than the snapshot change no state; a visible Delete turns
+    skipping on AND remembers the deleted user key (so that the older entries of that key, which follow it, stay hidden);
+    a Put is yielded only where it is not (skipping and at or below the remembered key)."""
+    fn = "iterator::DatabaseIterator::find_next_client_entry"
+    b = P.body(fn)
+    if b is None:
+        return R.missing_anchor(rule, fn)
+    R.analysed(b)
+    seqk = lambda os_: any(o.kind == "call" and o.name == SEQ_OF_KEY for o in os_)
+    snap = lambda os_: any("sequence_snapshot" in o.path for o in os_)
+    visible = []
+    for c in comparisons(b):
+        visible += c.edges_where("le", seqk, snap)
+    nexts = [c for c in b.calls() if not b.is_cleanup(c.bb) and (c.declared_name or "") == ITER_TRAIT + "::next" and in_cycle(b, c.bb)]
+    if not visible or not nexts:
+        return R.check(rule, fn + "|anchors", False, where(b), "the loop filters by sequence and steps the inner iterator forwards", "visible edges %d, next sites %d" % (len(visible), len(nexts)))
+    cyc = {x for x in b.reachable(nexts[0].bb) if nexts[0].bb in b.reachable(x)}
+    head = _loop_head(b, nexts[0].bb)
+    # loop state: the skipping flag (a bool local initialised before the loop, assigned inside) and cached_user_key
+    flags = []
+    for l in range(len(b.locals)):
+        if b.local_ty(l) == "bool" and b.local_name(l) is not None:
+            din = [d for d in b.defs().get(l, []) if d[1] in cyc and d[0] == "stmt"]
+            dout = [d for d in b.defs().get(l, []) if d[1] not in cyc]
+            if din and dout:
+                flags.append(l)
+    state = [(s_[0], "cached_user_key") for s_ in field_stores(b, "cached_user_key") if s_[0] in cyc] + \
+            [(s_[0], "is_valid") for s_ in field_stores(b, "is_valid") if s_[0] in cyc]
+    for l in flags:
+        state += [(d[1], b.local_name(l)) for d in b.defs().get(l, []) if d[1] in cyc and d[0] == "stmt"]
+    bad = [(bb, w) for (bb, w) in state if not b.must_pass(bb, through_edges=visible, start=head)]
+    R.check(rule, fn + "|invisible-records-change-nothing", bool(state) and bool(flags) and not bad, where(b),
+            "every update of the skipping flag, the remembered key and is_valid inside the loop lies behind the `sequence <= snapshot` edge",
+            "; ".join("%s updated in bb%d without the visibility test" % (w, bb) for bb, w in bad) or "%d state updates, flag locals %s" % (len(state), [b.local_name(l) for l in flags]))
+    del_e = [e for e in variant_edges(P, b, "key::Operation", "Delete", origin_pred_call(GET_OP)) if e[0] in cyc]
+    ok = bool(del_e) and len(flags) >= 1
+    det = []
+    for (sb, tg) in del_e:
+        set_true = [d[1] for l in flags for d in b.defs().get(l, []) if d[1] in cyc and d[0] == "stmt" and d[3]["rv"]["k"] == "use"
+                    and d[3]["rv"]["ops"][0]["k"] == "const" and d[3]["rv"]["ops"][0].get("val") == "1"]
+        remember = [s_[0] for s_ in field_stores(b, "cached_user_key") if s_[0] in cyc and
+                    any(o.kind == "call" and o.name == GET_USER_KEY for o in deep_origins(P, b, s_[2]["rv"]["ops"][0]) ) ] if True else []
+        if not remember:
+            remember = [s_[0] for s_ in field_stores(b, "cached_user_key") if s_[0] in cyc and b.must_pass(s_[0], through_edges=[(sb, tg)], start=head)
+                        and "Some" in str(stored_variants(b, s_[2]))]
+        for n_ in nexts:
+            if not b.must_pass(n_.bb, through_nodes=set_true, start=tg):
+                ok = False
+                det.append("after a visible Delete the iterator can step without turning skipping on")
+            if not b.must_pass(n_.bb, through_nodes=remember, start=tg):
+                ok = False
+                det.append("after a visible Delete the iterator can step without remembering the deleted user key")
+    R.check(rule, fn + "|delete-hides-the-older-entries-of-its-key", ok, where(b),
+            "a visible Delete sets the skipping flag and stores its user key before the iterator steps", "; ".join(sorted(set(det))) or "delete edges %d" % len(del_e))
+    # a Put becomes current only where the skip test failed: is_valid = true is not reachable over the edge `key <= remembered key`
+    valid_true = [s_[0] for s_ in field_stores(b, "is_valid", const=1)]
+    hidden = []
+    uk = lambda os_: any(o.kind == "call" and o.name == GET_USER_KEY for o in os_)
+    ck = lambda os_: any("cached_user_key" in o.path for o in os_)
+    for c in comparisons(b):
+        if c.bb in cyc and (c.edges_where("le", uk, ck) or c.edges_where("ge", uk, ck) or c.edges_where("ne", uk, ck) or c.edges_where("eq", uk, ck)):
+            # every edge of this comparison on which `key <= remembered key` is still possible, i.e. all but the exact `>` edges
+            strictly_greater = set(c.edges_where("gt", uk, ck, exact=True))
+            hidden += [(c.bb, t) for t in list(c.true_t) + list(c.false_t) if (c.bb, t) not in strictly_greater]
+    ok2 = bool(valid_true) and bool(hidden) and not any(v in b.reachable(tg, stop_nodes=[n_.bb for n_ in nexts]) for (sb, tg) in hidden for v in valid_true)
+    R.check(rule, fn + "|shadowed-puts-are-skipped", ok2, where(b),
+            "over the edge `user key <= remembered (deleted / already yielded) key` no entry is made current before the iterator steps",
+            "yield sites %s, hidden edges %d" % (valid_true, len(hidden)))
+
+
+
+# ------------------------------------------------------------------------------------------- OWN-12 a released version is the one that is unlinked
+def own12_release_unlinks_that_version(P, R, L, rule="OWN-12"):
+    """VersionSet::release_version unlinks exactly the node it was handed (remove_node(version_node)), never "the oldest"
+    or "the newest": versions are released out of order (a compaction holds its input version until it installs), and
+    get_live_files / remove_obsolete_files walk the list — unlinking a version another reader still pins deletes its files."""
+    fn = "versioning::version_set::VersionSet::release_version"
+    b = P.body(fn)
+    if b is None:
+        return R.missing_anchor(rule, fn)
+    R.analysed(b)
+    ll = [c for c in b.calls() if not b.is_cleanup(c.bb) and "linked_list::LinkedList" in (c.name or "")]
+    rm = [c for c in ll if c.name.endswith("::remove_node")]
+    other = [c for c in ll if any(c.name.endswith(x) for x in ("::pop", "::pop_front", "::push", "::push_front", "::push_node", "::push_node_front"))]
+    ok = bool(rm) and not other and all(any(o.kind == "param" and o.name == 2 for o in origins(b, c.args[1])) for c in rm)
+    R.check(rule, fn + "|unlinks-the-node-it-was-given", ok, where(b), "the only list mutation is remove_node(the version node passed in)",
+            "remove_node sites %d, other list mutations %s" % (len(rm), [c.name.rsplit("::", 1)[1] for c in other]))
